@@ -16,6 +16,7 @@ R2(a, b) == Ref(<<St("root", a), St("attr", b)>>)
 Lit(t, v) == [k |-> "lit", t |-> t, v |-> v]
 Call(f, as) == [k |-> "call", fn |-> f, es |-> as]
 Tmpl(ps) == [k |-> "tmpl", es |-> ps]
+Text(v) == [k |-> "text", v |-> v]
 Bin(op, l, r) == [k |-> "bin", op |-> op, l |-> l, r |-> r]
 Un(op, e) == [k |-> "un", op |-> op, e |-> e]
 Cond(c, t, f) == [k |-> "cond", c |-> c, tt |-> t, ff |-> f]
@@ -32,24 +33,29 @@ LocS == R2("loc", "s")  LocN == R2("loc", "n")  LocB == R2("loc", "b")  LocL == 
 LocOK == Ref(<<St("root", "loc"), St("attr", "o"), St("attr", "k")>>)
 LocL0 == Ref(<<St("root", "loc"), St("attr", "l"), St("idx", 0)>>)
 LocLeg == Ref(<<St("root", "loc"), St("attr", "l"), St("legacy", 1)>>)
-LocMA == Ref(<<St("root", "loc"), St("attr", "m"), St("key", "a")>>)
+LocMA == Ref(<<St("root", "loc"), St("attr", "m"), St("attr", "a")>>)
 LocSplat == Ref(<<St("root", "loc"), St("attr", "l"), St("splat", 0)>>)
 Unk == R2("zz", "q")
 SelfX == R2("self", "sx")
+SelfSa == R2("self", "sa")
+SelfPw == Ref(<<St("root", "self"), St("attr", "part"), St("idx", 0), St("attr", "pw")>>)
+SelfPh == Ref(<<St("root", "self"), St("attr", "part"), St("idx", 1), St("attr", "ph")>>)
+BSa == R2("b", "sa")
+BPw == Ref(<<St("root", "b"), St("attr", "part"), St("idx", 0), St("attr", "pw")>>)
 IterX == Ref(<<St("root", "x")>>)
 
 RECURSIVE StrE(_), NumE(_), BoolE(_)
 StrE(d) ==
-  LET base == {Lit("string", "x"), LocS, LocOK, LocL0, LocLeg, LocMA, Unk, SelfX} IN
+  LET base == {Lit("string", "x"), LocS, LocOK, LocL0, LocLeg, LocMA, Unk, SelfX, SelfSa, BSa} IN
   IF d = 0 THEN base
   ELSE LET prev == StrE(d - 1) small == {Lit("string", "x"), LocS, Unk} IN
-       base \cup {Tmpl(<<Lit("string", "a-"), e>>) : e \in prev} \cup {Tmpl(<<e, Lit("string", "-"), LocS>>) : e \in small}
+       base \cup {Tmpl(<<Text("a-"), e>>) : e \in prev} \cup {Tmpl(<<e, Text("-"), LocS>>) : e \in small}
             \cup {Call("upper", <<e>>) : e \in prev} \cup {Call("nofn", <<e>>) : e \in small}
             \cup {Cond(c, a, b) : c \in {Lit("bool", "true"), LocB}, a \in small, b \in {Lit("string", "y"), LocOK}}
             \cup {Paren(e) : e \in prev} \cup {Index(LocL, n) : n \in NumE(d - 1) \ {Lit("number", "1")}}   \* (a literal key is an index step of the traversal itself)
             \cup {Call("join", <<Lit("string", ","), LocL, List(<<e>>)>>) : e \in small}
 NumE(d) ==
-  LET base == {Lit("number", "1"), LocN} IN
+  LET base == {Lit("number", "1"), LocN, SelfPw, SelfPh, BPw} IN
   IF d = 0 THEN base
   ELSE base \cup {Bin("+", a, b) : a \in NumE(d - 1), b \in base} \cup {Un("-", a) : a \in NumE(d - 1)} \cup {Call("max", <<a, b>>) : a \in base, b \in NumE(d - 1)}
 BoolE(d) ==
@@ -82,6 +88,7 @@ Pairs ==
   \cup { <<[k |-> "tuple", es |-> <<CRef, CLit("string")>>], e>> : e \in {List(<<LocS, LocS, LocS>>), List(<<Lit("string", "q"), Lit("string", "r")>>)} }
   \cup { <<[k |-> "map", e |-> AnyC("string")], e>> : e \in MapE(1) }
   \cup { <<[k |-> "obj", as |-> [x |-> AnyC("string"), y |-> CLit("number")]], Obj(<<It(IdK("x"), e), It(IdK("y"), LocN), It(IdK("z"), LocS)>>)>> : e \in StrE(1) }
+  \cup { <<[k |-> "obj", as |-> [x |-> AnyC("string"), y |-> CLit("number")]], Obj(<<It(IdK("x"), Lit("string", "p")), It(LocS, Lit("string", "q")), It(IdK("y"), Lit("number", "2"))>>)>> }
   \cup { <<CLit("string"), e>> : e \in StrE(1) }
   \cup { <<[k |-> "kw"], e>> : e \in {[k |-> "kw", v |-> "kw"], LocS} }
   \cup { <<[k |-> "typeDecl"], e>> : e \in {[k |-> "type", v |-> "string"], [k |-> "type", v |-> "list(string)"], LocS} }
@@ -98,7 +105,19 @@ HasSelf(e) == CASE e.k = "ref" -> IsSelf(e)
                 [] OTHER -> FALSE
 
 \* where the attribute sits: level 0 = root body, 1 = in block b, 2 = in block b.in; flags[i+1] = self references enabled at level i
-Places(e) == IF HasSelf(e) THEN { [level |-> 0, flags |-> <<TRUE, FALSE, FALSE>>], [level |-> 0, flags |-> <<FALSE, FALSE, FALSE>>],
+RECURSIVE HasB(_)
+HasB(e) == CASE e.k = "ref" -> e.steps[1].v = "b"
+             [] e.k \in {"list", "tmpl", "call"} -> \E i \in DOMAIN e.es : HasB(e.es[i])
+             [] e.k = "obj" -> \E i \in DOMAIN e.items : HasB(e.items[i].val)
+             [] e.k = "bin" -> HasB(e.l) \/ HasB(e.r)
+             [] e.k \in {"un", "paren"} -> HasB(e.e)
+             [] e.k = "cond" -> HasB(e.c) \/ HasB(e.tt) \/ HasB(e.ff)
+             [] e.k = "index" -> HasB(e.e) \/ HasB(e.key)
+             [] e.k = "for" -> HasB(e.coll) \/ HasB(e.body)
+             [] OTHER -> FALSE
+
+Places(e) == IF HasB(e) /\ ~HasSelf(e) THEN { [level |-> 0, flags |-> <<FALSE, FALSE, FALSE>>], [level |-> 1, flags |-> <<FALSE, FALSE, FALSE>>] }
+             ELSE IF HasSelf(e) THEN { [level |-> 0, flags |-> <<TRUE, FALSE, FALSE>>], [level |-> 0, flags |-> <<FALSE, FALSE, FALSE>>],
                                    [level |-> 1, flags |-> <<FALSE, TRUE, FALSE>>], [level |-> 2, flags |-> <<FALSE, TRUE, FALSE>>],
                                    [level |-> 2, flags |-> <<FALSE, FALSE, TRUE>>], [level |-> 1, flags |-> <<TRUE, FALSE, TRUE>>] }
              ELSE { [level |-> 0, flags |-> <<FALSE, FALSE, FALSE>>] }
@@ -107,10 +126,10 @@ Init == \E p \in Pairs : \E pl \in Places(p[2]) : case = [cons |-> p[1], expr |-
 Next == UNCHANGED vars
 Spec == Init /\ [][Next]_vars
 
-SelfOn == case.flags[case.level + 1]
+SelfOn == [on |-> case.flags[case.level + 1], level |-> case.level]
 \* sanity of the reference operators: leaves have distinct paths; nothing under literal-only constraints
 DistinctPaths == LET o == OriginsP(case.cons, case.expr, "", SelfOn) IN \A a, b \in o : a.path = b.path => a = b
-NoSelfWhenOff == ~SelfOn => \A a \in OriginsP(case.cons, case.expr, "", SelfOn) : a.addr[1].v # "self"
+NoSelfWhenOff == ~SelfOn.on => \A a \in OriginsP(case.cons, case.expr, "", SelfOn) : a.addr[1].v # "self"
 LiteralQuiet == case.cons.k \in {"lit", "litval", "kw", "typeDecl"} => OriginsP(case.cons, case.expr, "", SelfOn) = {}
 
 Emit == PrintT(ToJson(case))
